@@ -123,6 +123,11 @@ func genC11(e *emitter, tier string, seed int64) {
 		{"field-badjson", "", fieldOf("str", `{"a": `)},
 		{"field-badurl", "", fieldOf("str", "%zz")},
 		{"field-float", "", fieldOf("float", "4612811918334230528")},
+		{"var-bigfloat", "k = 1234567.5\n", func(p *pointSpec) {}},
+		{"var-smallfloat", "k = 0.00001\n", func(p *pointSpec) {}},
+		{"field-bigfloat", "", fieldOf("float", "4720637518976909312")},
+		{"field-tinyfloat", "", fieldOf("float", "13731694030708141453")},
+		{"field-hugefloat", "", fieldOf("float", "9097811302482466869")},
 		{"field-bool", "", fieldOf("bool", "false")},
 		{"field-nil", "", fieldOf("nil", "")},
 		{"tag", "", func(p *pointSpec) { p.Tags = append(p.Tags, [2]string{"k", " Tag%20Val "}) }},
